@@ -63,10 +63,12 @@ Cat == [ A |-> Fn(<<"x", "k">>, <<"a">>, {"k"}),
          P |-> Fn(<<"n", "s">>, <<"m">>, {}),
          Q |-> Fn(<<"m">>, <<"n">>, {}),
          R |-> [ins |-> <<"n">>, outs |-> <<>>, dflt |-> {}, gate |-> TRUE, targets |-> <<"P">>],
+         \* S consumes its own output: a self-accumulating node that add_nodes appends to a graph
+         S |-> Fn(<<"c", "acc">>, <<"acc">>, {}),
          T |-> Fn(<<"n">>, <<"t">>, {}),
          W |-> Fn(<<"z", "v">>, <<"w">>, {"v"}),
          Z |-> Fn(<<"c">>, <<"z">>, {}) ]
-Order == <<"A", "B", "C", "P", "Q", "R", "T", "W", "Z">>    \* sorted node names
+Order == <<"A", "B", "C", "P", "Q", "R", "S", "T", "W", "Z">>    \* sorted node names
 AllParams == UNION {Names(Cat[n].ins) : n \in DOMAIN Cat}
 
 Unset    == [set |-> FALSE, v |-> <<>>]
@@ -94,7 +96,7 @@ CtrlE(ns) == {gt \in Names(ns) \X Names(ns) : Cat[gt[1]].gate /\ gt[2] \in Names
 
 \* The node lists that can occur (a base list extended by add_nodes) and their edge structure.
 \* A constant: TLC evaluates it once.
-ExtSeqs   == {<<>>, <<"Z">>, <<"W">>, <<"Z", "W">>, <<"W", "Z">>}
+ExtSeqs   == {<<>>, <<"Z">>, <<"W">>, <<"Z", "W">>, <<"W", "Z">>, <<"S">>, <<"S", "Z">>, <<"Z", "S">>}
 NodeLists == {b \o x : b \in {<<"A", "B", "C">>, <<"P", "Q", "R", "T">>}, x \in ExtSeqs}
 St == [ns \in NodeLists |->
          [prod  |-> Produced(ns),
@@ -223,7 +225,7 @@ BindNames   == IF Wide THEN {"x", "a", "k", "n", "s", "c"} ELSE {"x", "a", "n", 
 SelChoices  == IF Wide THEN {<<"c">>, <<"a", "b">>, <<"b">>, <<"t">>, <<"m">>, <<"n", "t">>, <<"z">>}
                        ELSE {<<"c">>, <<"a", "b">>, <<"t">>, <<"m">>}
 EntryNames  == IF Wide THEN {"B", "C", "Q", "T", "P", "Z"} ELSE {"B", "Q", "T"}
-ExtraNodes  == IF Wide THEN {"Z", "W"} ELSE {"Z"}
+ExtraNodes  == IF Wide THEN {"Z", "W", "S"} ELSE {"Z", "S"}
 NewNames    == IF Wide THEN {"n1", "n2"} ELSE {"n1"}
 InRenames   == IF Wide THEN {<<>>, <<<<"x", "u">>>>, <<<<"x", "y">>, <<"y", "x">>>>, <<<<"u", "x">>>>, <<<<"y", "x">>>>,
                              <<<<"p", "u">>>>, <<<<"p", "q">>, <<"q", "p">>>>, <<<<"q", "p">>>>, <<<<"n", "u">>>>}
